@@ -14,7 +14,7 @@ open Pilota
 def answerLine (docs : Driver.Gen.Docs) (line : String) : Driver.Gen.Docs × String :=
   let t := line.trimAscii.toString
   if t.isEmpty || t.startsWith "#" then (docs, "")
-  else if t.endsWith " oracle-only" && (t.startsWith "skv " ) then (docs, "not-asked")   -- very large containers in the harness's repeat shorthand
+  else if t.endsWith " oracle-only" && (t.startsWith "skv " || t.startsWith "ur " || t.startsWith "pbe") then (docs, "not-asked")   -- very large inputs / inputs without a model-level claim: judged by the harness oracle only
   else match Sexp.parseLine t with
     | none => (docs, "bad-request")
     | some items =>
